@@ -623,12 +623,12 @@ class LoaderBase(ABC):
             **align_kwargs,
         )
 
-        if model.is_multi_templates:
-            task_shape = (model.niter,) + tuple(
-                2 * np.ceil(_max_shifts_px).astype(np.int32) + 1
-            )
-        else:
-            task_shape = tuple(2 * np.ceil(_max_shifts_px).astype(np.int32) + 1)
+        # NOTE: the shape of the landscape depends on the alignment model and on
+        # `upsample`. Use the actual output shape of the model to declare the tasks.
+        _probe = model.template.reshape((-1,) + tuple(model.input_shape))[0]
+        task_shape = model.landscape(
+            _probe, max_shifts=_max_shifts_px, upsample=upsample
+        ).shape
         task_arrays = (
             self.replace(output_shape=model.input_shape)
             .iter_mapping_tasks(
